@@ -63,7 +63,10 @@ func genC03(t *rapid.T) SnapCase {
 	} else {
 		c.Grid = gen.GridSpec{Kind: "builtin", Name: rapid.SampledFrom(accepted()).Draw(t, "set")}
 	}
-	g := c.Grid.MustBuild()
+	g, err := c.Grid.Build()
+	if err != nil {
+		return c // the oracle reports it: the tool's extent disagrees with the document
+	}
 	top := min(g.MaxID(), maxAddressableID(g))
 	id := rapid.IntRange(0, top).Draw(t, "id")
 	c.IDs = []int{id}
@@ -120,6 +123,11 @@ func ulp(x float64) float64 {
 }
 
 func oracleC03(c SnapCase) (o report.Outcome) {
+	if _, err := c.Grid.Build(); err != nil {
+		o.NonTrivial = true
+		o.Failf([]string{"extent"}, "the grid does not start at the corner of the extent that the document describes: %v", err)
+		return o
+	}
 	a := analyse(c)
 	g := a.g
 	o.Label("grid=%s", gridClass(c.Grid))
